@@ -113,7 +113,13 @@ pub fn build_response(id: u32, status: u16, body_len: usize, declared: bool, thr
 
 /// Runs `prog` on `rq`.  The record is pushed to `sink` *before* the finishing action (so that a
 /// panicking program still leaves its trace) and completed afterwards.
-pub fn handle(mut rq: Request, prog: &Prog, nonce: &str, client_len: usize, sink: &Mutex<Vec<Delivered>>) {
+pub fn handle(rq: Request, prog: &Prog, nonce: &str, client_len: usize, sink: &Mutex<Vec<Delivered>>) {
+    handle_with(rq, prog, nonce, client_len, sink, &|| {})
+}
+
+/// `before_finish` runs after the reads, right before the finishing action (used by the
+/// scheduled engine to realise start orders).
+pub fn handle_with(mut rq: Request, prog: &Prog, nonce: &str, client_len: usize, sink: &Mutex<Vec<Delivered>>, before_finish: &dyn Fn()) {
     let mut d = describe(&rq, nonce);
     d.client_len_at_delivery = client_len;
     let id = d.id.unwrap_or(9999);
@@ -124,6 +130,7 @@ pub fn handle(mut rq: Request, prog: &Prog, nonce: &str, client_len: usize, sink
         Finish::Upgrade { .. } => "upgrade",
         Finish::Drop => "drop",
         Finish::Panic => "panic",
+        Finish::WriterUnused => "writer-unused",
     }
     .to_string();
     let slot = {
@@ -131,6 +138,7 @@ pub fn handle(mut rq: Request, prog: &Prog, nonce: &str, client_len: usize, sink
         s.push(d);
         s.len() - 1
     };
+    before_finish();
     match &prog.finish {
         Finish::Respond { status, body_len, declared, threshold } => {
             let r = rq.respond(build_response(id, *status, *body_len, *declared, *threshold));
@@ -189,6 +197,10 @@ pub fn handle(mut rq: Request, prog: &Prog, nonce: &str, client_len: usize, sink
             drop(stream);
         }
         Finish::Drop => drop(rq),
+        Finish::WriterUnused => {
+            let w = rq.into_writer();
+            drop(w);
+        }
         Finish::Panic => {
             let _hold = rq;
             std::panic::panic_any(vcore::panics::HarnessPanic);
